@@ -1,7 +1,9 @@
 """C07 — spline evaluation equals the mathematical B-spline on every entry point.
 
-proof side    : Props/C07.lean (findSpan_some_correct, basis_sum_one, basis_nonneg, ders_sum_zero,
-                basisFuns_eq_coxDeBoor, evalSpline1D_eq_sum, entrypoints, evalSpline2D_eq_tensor, cubic_eq_general ...)
+proof side    : Props/C07.lean (findSpan_some_correct, findSpan_unique, basis_sum_one, basis_nonneg, ders_sum_zero,
+                basisFuns_eq_coxDeBoor, evalSpline1D_eq_sum, evalSpline1D_right_end, entrypoints, evalSpline2D_eq_tensor,
+                cubic_eq_general, cuFindSpan_correct, cubic_same_cell, cubic_path_eq_general_path(_2d), ders_is_derivative,
+                evalSpline1D_der_is_derivative, periodic_shift, periodic_ends_equal)
 correspondence: every public entry point of pygyro/splines (Spline1D.eval scalar/array, eval_vector, BSplines[i],
                 Spline2D.eval scalar/cross, eval_vector, all (der1,der2)) and the raw nu_* / cu_* kernels, against the
                 exact-rational Lean models (Drivers/C07.lean); floats compared through common.close with the running
@@ -162,6 +164,7 @@ class Space:
         pts = list(br) + [nxt(v, a) for v in br[1:]] + [nxt(v, b) for v in br[:-1]]
         pts += [rng.uniform(a, b) for _ in range(nrand)]
         pts += [a + (b - a) * rng.randint(0, 64) / 64.0 for _ in range(2)]
+        pts += list(getattr(self, 'extra', []))       # replayed failing inputs
         return np.clip(np.array(pts, float), a, b)
 
     def discont_ok(self, x):
@@ -520,7 +523,7 @@ def check_cubic_vs_general(chk, sp, rng):
 
 def pick2d(sp, rng, n):
     xs = sp.xs(rng, 3)
-    must = [sp.a, sp.bnd]
+    must = [sp.a, sp.bnd] + list(getattr(sp, 'extra', []))
     rest = [float(v) for v in xs if v not in must]
     rng.shuffle(rest)
     return np.array(must + rest[:max(0, n - 2)])
@@ -693,16 +696,38 @@ def replay(chk, drv):
     rp = json.load(open(chk.replay))
     case = rp.get('case') or {}
     rng = chk.rng
+
+    def extra(sp, key):
+        if key in case:
+            sp.extra = [float.fromhex(case[key])]
+        return sp
     if 'space' in case:
-        sp = Space.from_desc(case['space'])
-        print('replaying 1-D checks on', sp.desc())
+        sp = extra(build(chk, *[case['space'][k] for k in ('degree', 'periodic', 'kind')], unhx(case['space']['breaks_hex']),
+                         case['space']['uniform_flag']), 'x_hex')
+        print('replaying the 1-D checks on', sp.desc(), 'extra x:', getattr(sp, 'extra', None))
         check_1d(chk, drv, sp, rng, 8)
         check_getitem(chk, drv, sp, rng, 2)
         (check_cu_kernels if sp.cu else check_nu_kernels)(chk, drv, sp, rng, 4)
+        check_cubic_vs_general(chk, sp, rng)
     elif 'space1' in case:
-        s1, s2 = Space.from_desc(case['space1']), Space.from_desc(case['space2'])
-        print('replaying 2-D checks on', s1.desc(), s2.desc())
-        check_2d(chk, drv, s1, s2, rng, 6)
+        s1 = extra(Space.from_desc(case['space1']), 'x_hex')
+        s2 = extra(Space.from_desc(case['space2']), 'y_hex')
+        print('replaying the 2-D checks on', s1.desc(), s2.desc())
+        check_2d(chk, drv, s1, s2, rng, 8)
+    elif case.get('entry') == 'BSplines.__init__':
+        print('replaying the construction of', {k: case[k] for k in ('degree', 'periodic', 'kind', 'breaks')})
+        build(chk, case['degree'], case['periodic'], case['kind'], unhx(case['breaks_hex']), case['uniform_flag'])
+    elif case.get('entry') == 'nu_find_span':
+        from pygyro.splines.spline_eval_funcs import nu_find_span
+        kn = unhx(case['knots_hex'])
+        print('replaying nu_find_span(knots, %d, %r)' % (case['degree'], case['x']))
+        r = guarded(chk, 'nu_find_span', case, lambda: int(nu_find_span(kn, case['degree'], float(case['x']))))
+        print('returned', r)
+    else:
+        print('replay file names no failing input (kind=%s); running the full check instead' % rp.get('kind'))
+        chk.replay = None
+        return False
+    return True
 
 
 def run(chk):
@@ -714,12 +739,12 @@ def run(chk):
     drv = common.LeanDriver('C07.lean')
     rng = chk.rng
     try:
-        if chk.replay:
-            replay(chk, drv)
+        if chk.replay and replay(chk, drv):
+            pass
         else:
             degs1 = list(range(1, chk.n(6, 11)))
             # 1-D: every (degree, boundary, kind) at least once
-            for rep in range(chk.n(1, 3)):
+            for rep in range(chk.n(2, 4)):
                 for deg in degs1:
                     for periodic in (False, True):
                         for kind in KINDS:
@@ -752,7 +777,7 @@ def run(chk):
                     check_1d(chk, drv, sp, rng, 3)
                     check_getitem(chk, drv, sp, rng, 1)
             # 2-D: general x general (independent degree / boundary / kind), cubic x cubic
-            for it in range(chk.n(14, 90)):
+            for it in range(chk.n(24, 120)):
                 if it % 4 == 3:
                     s1 = random_space(chk, 3, kind=rng.choice(KINDS[0::2]))
                     s2 = random_space(chk, 3, kind=rng.choice(KINDS[0::2]))
